@@ -247,4 +247,4 @@ Fixpoint lputs (ls : list label) : list (nat * bytes) :=
   end.
 Definition put_of (e : entry) : nat * bytes := (e_thr e, e_msg e).
 (* worker steps that certainly suffice to write the frames of l completely, given a ready transport *)
-Definition cost (l : list entry) : nat := fold_right (fun e a => 6 + length (e_frame e) + a)%nat 1%nat l.
+Definition cost (l : list entry) : nat := fold_right (fun e a => 6 + length (e_frame e) + a)%nat 2%nat l.
